@@ -118,6 +118,13 @@ struct snapraid_worker {
 	unsigned index;
 
 	/**
+	 * If the writer has completed all its tasks and it's waiting for a new one.
+	 *
+	 * Used only by writers, and protected by the io mutex.
+	 */
+	int is_idle;
+
+	/**
 	 * Which buffer base index should be used for destination.
 	 */
 	unsigned buffer_skew;
@@ -419,6 +426,14 @@ extern void (*io_write_next)(struct snapraid_io* io, block_off_t blockcur, int s
  * \return The number of positions stored, that are then forgotten.
  */
 unsigned io_writer_error_position(struct snapraid_io* io, block_off_t* position_map, unsigned position_max);
+
+/**
+ * Wait for the completion of all the parity writes already scheduled with io_write_next().
+ *
+ * To be called before saving a state that records the blocks written as synced.
+ * The errors of these writes are then available with io_writer_error_position().
+ */
+extern void (*io_flush)(struct snapraid_io* io);
 
 /**
  * Refresh the number of cached blocks for all data and parity disks.
